@@ -68,8 +68,7 @@ def scan(out, on_tag=None):
                     seen.add(k)
                     stats['attrs'] += 1
                 if name in VOID:
-                    if not selfclose:
-                        raise Problem('void-tag-not-self-closed', i, out[i:i + 60])
+                    # '<br />' today; a plain '<br>' would be just as well-formed, so both spellings are accepted
                     if on_tag:
                         on_tag('void', name, pairs)
                 else:
